@@ -8,7 +8,7 @@ from lib import gens, refgeo, refids
 from lib.runner import Stage, Violation, hyp_drive, guarded
 
 RULE = ("cell x closed_ring in {True,False,omitted} x segments in {omitted,None,'auto',1,2,3,7,16} (24 option sets per cell, "
-        "plus options=None and {}): all cells of res 0..4 (quick) / 0..6 (thorough) and Hypothesis cells of res 4..29 by id "
+        "plus options=None and {} and one further explicit segments value per cell from 4..257 around powers of two): all cells of res 0..4 (quick) / 0..6 (thorough) and Hypothesis cells of res 4..29 by id "
         "construction and by location (antimeridian, polar caps, exact poles, frame points). Oracle: vertex count (3 at res 1 "
         "else 5)*k (+1 iff closed), k=max(1,2^(6-res)) for the auto spellings; closed => first==last; latitudes in [-90,90]; "
         "ring simple and counter-clockwise in the gnomonic plane about the centre; segments=1 corners occur in every k-ring "
@@ -61,8 +61,11 @@ def geometry_checks(ring, cell, res, k, centre, corners, case, L):
     area = refgeo.signed_area_planar(pts)
     if not area > 0:
         raise Violation("ring_not_counter_clockwise", case, observed=area, expected="> 0")
-    if not refgeo.ring_is_simple(pts):
-        raise Violation("ring_not_simple", case, observed="self-intersection or repeated vertex", expected="simple ring")
+    if n <= 400:
+        if not refgeo.ring_is_simple(pts):
+            raise Violation("ring_not_simple", case, observed="self-intersection or repeated vertex", expected="simple ring")
+    elif len(set(pts)) != n:        # the O(n^2) crossing test is skipped for very fine rings; repeated vertices are still caught
+        raise Violation("ring_not_simple", case, observed="repeated vertex", expected="simple ring")
     # corners of the segments=1 ring occur exactly k apart, same cyclic order
     idx = []
     for c in corners:
@@ -113,6 +116,11 @@ def judge_cell(cell, col, cls, enumerated=False):
     ncases = nnt = 0
     sample = None
     calls = [("none", None), ("empty", {})] + [((s, c), _opts(s, c)) for s in SEGS for c in CLOSED]
+    # the statement says "segments: integer >= 1": one further value per cell from a pool of boundary values,
+    # chosen by the cell id (deterministic), both ring kinds
+    pool = (4, 5, 6, 8, 9, 12, 15, 17, 31, 32, 33, 63, 64, 65, 100, 127, 128, 129, 200, 255, 256, 257)
+    extra = pool[(cell >> 7 ^ cell >> 23 ^ cell >> 41 ^ cell >> 58) % len(pool)]
+    calls += [((extra, True), _opts(extra, True)), ((extra, False), _opts(extra, False))]
     for tag, opts in calls:
         case = {"cell": cid, "opts": opts if opts is None else {k: v for k, v in opts.items()}}
         snap = copy.deepcopy(opts)
